@@ -14,7 +14,8 @@ EXPLANATION = (
     "regex AST); D4 default identifiers N<k>: map keyed by id(node), get-or-insert with a counter, map and counter "
     "assigned only in __init__ (stable within and across iterations); D5 header/options/nodes/edges order with lines "
     "passed on unchanged, to_file wraps exactly those lines in the fence, constructor options stored under their own "
-    "names. Not decided: the exact text."
+    "names; D1c every admitted node/edge reaches its yield on "
+    "every path of its loop; D6 line templates are constants. Not decided: the exact text."
 )
 ASSUMPTIONS = ["PreOrderIter admits nodes as C06 states", "user-supplied functions are opaque"]
 FILES = {"anytree/exporter/mermaidexporter.py"}
